@@ -165,7 +165,7 @@ def oracle_c13(evs, term, case, allow_draw_overrun=False):
 TAG_OF_OP = {"sp": 1, "jn": 2, "yd": 3, "pk": 4, "uh": 5, "ut": 5, "rn": 6, "rs": 8, "sa": 10, "st": 11, "sr": 12, "sc": 13, "sv": 14,
              "lk": 15, "tl": 16, "ul": 17, "rd": 18, "wr": 18, "tr": 19, "tw": 19, "ru": 20, "cw": 21, "cn": 22, "ca": 22,
              "sd": 23, "ts": 23, "rc": 24, "tc": 24, "dt": 25, "dr": 26, "bw": 27, "co": 28, "ic": 29,
-             "as": 31, "aw": 32, "ab": 33, "dh": 34, "ay": 35, "bo": 36, "if": 37, "lw": 38, "id": 40, "zs": 1}
+             "as": 31, "aw": 32, "ab": 33, "dh": 34, "ay": 35, "bo": 36, "if": 37, "lw": 38, "id": 40, "zs": 1, "qn": 42, "qp": 43, "qd": 44}
 
 
 def op_tag(op):
@@ -756,6 +756,57 @@ def oracle_objects(evs, term, case, findings=None):
                 out.append(("C03", "deadlock reported although every acquire pending on s%d fits in the %d available permits" % (o, s_["avail"]), None))
     if manual_acquire:
         out = [x for x in out if not (x[0] == "C18" or "pending on s" in x[1] or "semaphore" in x[1])]
+    # ---- a task named in a deadlock report must be inside an operation that can block, and not waiting for something
+    # that has already happened ----
+    if term.startswith("deadlock:"):
+        NONBLOCKING = {"yd", "sp", "st", "tl", "tr", "tw", "sr", "sc", "sv", "ul", "ru", "cn", "ca", "uh", "ut", "id", "rn", "rs", "ts", "tc",
+                       "dt", "dr", "qn", "qp", "qd", "ic", "as", "ab", "dh", "if", "ay", "atomic"}
+        ntasks = 1 + sum(1 for e in evs if e.kind == "O" and e.tag in (1, 31))
+        ended = set(e.task for e in evs if e.kind == "O" and e.tag == 9)
+        reported = set(int(x) for x in term[10:-1].split(",") if x)
+        # hand-held Acquire futures: slot -> (semaphore, task whose poll left it queued)
+        slots = {}
+        aspawned = {}
+        ever_queued = set()      # tasks whose hand-made poll left an Acquire queued on an unfair semaphore
+        for idx, e in enumerate(evs):
+            if e.kind != "O":
+                continue
+            if e.tag == 31 and e.vals:
+                aspawned.setdefault(e.task, []).append(e.vals[0])
+            op_ = attr[idx]
+            if e.tag == 42 and op_ and op_.startswith("qn"):
+                f_ = op_[2:].split(".")
+                slots[e.vals[0]] = {"sem": int(f_[2]), "task": None}
+            elif e.tag == 43 and e.vals[0] in slots:
+                slots[e.vals[0]]["task"] = e.task if e.vals[1] == 2 else None
+                sem_ = st.get(slots[e.vals[0]]["sem"])
+                if e.vals[1] == 2 and isinstance(sem_, dict) and not sem_.get("fair", True):
+                    ever_queued.add(e.task)
+            elif e.tag == 44:
+                slots.pop(e.vals[0], None)
+
+        def stale_waiter(t):
+            # F35: the task left a hand-polled Acquire queued on an unfair semaphore (the waiter may since have been handed
+            # to another poller: the task was blocked while the waiter still named it)
+            return t in ever_queued
+
+        for t in sorted(reported):
+            if t in ended or t not in stacks or t >= ntasks:
+                continue
+            frame = stacks[t][-1]
+            ops = bodies[frame[0]] if frame[0] < len(bodies) else []
+            if frame[1] >= len(ops):
+                continue
+            op = ops[frame[1]]
+            code = "atomic" if (op[0] == "a" and len(op) > 1 and op[1].isdigit()) else op[:2]
+            tag = "F35" if stale_waiter(t) else None
+            if code in NONBLOCKING:
+                out.append(("C18" if tag else "C03", "deadlock reported with task %d blocked, but its next operation '%s' cannot block: the task was not waiting for anything" % (t, op), tag))
+            elif code == "aw":
+                h = int(op[2:])
+                tgt = aspawned.get(t, [])
+                if h < len(tgt) and tgt[h] in ended:
+                    out.append(("C17", "deadlock reported with task %d blocked awaiting the JoinHandle of task %d, which has finished: the wake-up of its completion was lost" % (t, tgt[h]), tag))
     return out
 
 
